@@ -1,6 +1,6 @@
 // C31: hpack.Decoder.Write/Close on arbitrary byte strings, split at random points, vs model Hpack.v
 // and the RFC 7541 reference decoder in the same file.
-// input : [mx [chunk ...]]   NewDecoder(mx); Write(chunk)... until error; Close()
+// input : [mx M [chunk ...]]   NewDecoder(mx); SetMaxStringLength(M) if M > 0; Write(chunk)... until error; Close()
 // output: [fields status tableSize tableMax tableEntries]
 package main
 
@@ -36,7 +36,7 @@ func errCode(err error) int {
 	case hpack.ErrInvalidHuffman:
 		return 4
 	case hpack.ErrStringLength:
-		return 7
+		return 4 // one class with ErrInvalidHuffman: huffmanDecode reports whichever it meets first
 	}
 	return 51
 }
@@ -48,8 +48,11 @@ func impl(in hv.Val) hv.Val {
 		fs = append(fs, hv.L{hv.B([]byte(f.Name)), hv.B([]byte(f.Value)), hv.Bool(f.Sensitive)})
 		return nil
 	})
+	if m := hv.AsInt(l[1]); m > 0 {
+		dec.SetMaxStringLength(int(m))
+	}
 	var err error
-	for _, c := range hv.AsList(l[1]) {
+	for _, c := range hv.AsList(l[2]) {
 		if _, err = dec.Write(hv.AsBytes(c)); err != nil {
 			break
 		}
@@ -346,7 +349,32 @@ func gen(r *hv.Rng, i int, tier string) (string, hv.Val) {
 	if len(blk) == 0 {
 		label = "triv-empty"
 	}
-	return label, hv.L{hv.I(mx), chunks}
+	// string length limit: mostly the default; otherwise around the string lengths the builder uses
+	m := 0
+	if r.Chance(1, 3) {
+		m = []int{1, 2, 3, 5, 8, 9, 10, 11, 13, 14, 15, 16, 23, 24, 25, 40, 100}[r.Intn(17)]
+		if r.Chance(1, 4) {
+			m = r.Range(1, 30)
+		}
+		label = "lim:" + label
+	}
+	if r.Chance(1, 80) {
+		// Write refuses to buffer more than 2*(M+8) bytes of an incomplete representation: only reachable with
+		// M = 1 and over-long integers (10-byte name index + unfinished 9-byte length = 19 > 18); 17..19 bytes
+		blk := []byte{[]byte{0x0f, 0x1f, 0x7f}[r.Intn(3)], 0x80, 0x80, 0x80, 0x80, 0x80, 0x80, 0x80, 0x80, 0x00, 0x7f}
+		for k := r.Range(6, 8); k > 0; k-- {
+			blk = append(blk, 0x80)
+		}
+		chunks = hv.L{}
+		if r.Bool() {
+			chunks = append(chunks, hv.B(blk))
+		} else {
+			cut := r.Range(1, len(blk)-1)
+			chunks = append(chunks, hv.B(blk[:cut]), hv.B(blk[cut:]))
+		}
+		return "lim-paranoia", hv.L{hv.I(mx), hv.I(r.Range(1, 2)), chunks}
+	}
+	return label, hv.L{hv.I(mx), hv.I(m), chunks}
 }
 
 type wbuf struct{ b []byte }
@@ -354,5 +382,5 @@ type wbuf struct{ b []byte }
 func (w *wbuf) Write(p []byte) (int, error) { w.b = append(w.b, p...); return len(p), nil }
 
 func main() {
-	hv.Main(&hv.Spec{Prop: "C31", Gen: gen, Impl: impl, NQuick: 20000, NThorough: 1000000})
+	hv.Main(&hv.Spec{Prop: "C31", Gen: gen, Impl: impl, NQuick: 15000, NThorough: 1000000})
 }
